@@ -33,6 +33,8 @@ const METRICS: [(K, &str); 4] = [(K::C, "foo"), (K::G, "foo"), (K::H, "foo"), (K
 #[derive(Clone, Copy, Debug)]
 enum Op {
     Update(usize),
+    /// an update that leaves the value unchanged: counter increment(0) / absolute(current), gauge set(same), histogram: n/a
+    Touch(usize),
     Advance(u64),
     Observe(usize),
     ObserveAll,
@@ -42,6 +44,8 @@ fn alphabet() -> Vec<Op> {
     for i in 0..4 {
         a.push(Op::Update(i));
     }
+    a.push(Op::Touch(0));
+    a.push(Op::Touch(3));
     for d in [1, T - 1, T, T + 1] {
         a.push(Op::Advance(d));
     }
@@ -176,6 +180,20 @@ fn direct(ctx: &Ctx, res: &mut PartResult, depth: usize, mask_i: usize, timeout:
                     m.gen += 1;
                     m.updates_since_registration += 1;
                 }
+                Op::Touch(mi) => {
+                    let (_, name) = METRICS[mi];
+                    let key = Key::from_name(name);
+                    // counters only (metrics 0 and 3): alternate increment(0) and absolute(current value)
+                    let cur = ms[mi].updates_since_registration;
+                    if ms[mi].gen % 2 == 0 {
+                        r.reg.get_or_create_counter(&key, |c| CounterFn::increment(c, 0));
+                    } else {
+                        r.reg.get_or_create_counter(&key, |c| CounterFn::absolute(c, cur));
+                    }
+                    let m = &mut ms[mi];
+                    m.exists = true;
+                    m.gen += 1;
+                }
                 Op::Advance(d) => {
                     r.mock.increment(d);
                     now += d;
@@ -233,7 +251,7 @@ fn direct(ctx: &Ctx, res: &mut PartResult, depth: usize, mask_i: usize, timeout:
     for (sig, msg, seq) in fails {
         res.violation(&sig, msg, json!({"seq": seq}));
     }
-    res.sample(json!({"mask": mask_name, "timeout_ticks": if timeout { Some(T) } else { None }, "ops": format!("{:?}", [alpha[0], alpha[12], alpha[7], alpha[1], alpha[9]])}));
+    res.sample(json!({"mask": mask_name, "timeout_ticks": if timeout { Some(T) } else { None }, "ops": format!("{:?}", [alpha[0], alpha[14], alpha[9], alpha[1], alpha[4]])}));
 }
 
 // ------------------------------------------------------------------ through the Prometheus exporter
